@@ -354,6 +354,7 @@ func init() {
 		}
 		if only == "" || only == "crafted" {
 			g.genCrafted()
+			g.genTextParsers()
 		}
 		f, err := os.Create(c.Args[1])
 		if err != nil {
